@@ -4,22 +4,81 @@ package main
 
 // c04_sched.go — compiled into afcheck-sched only (instrumented afero): histories under the
 // cooperative scheduler.  A schedule is the list of goroutine numbers chosen at the choice
-// points (lock acquisitions reached while holding no lock, and the gaps between calls); it is
-// written into the case header and replays exactly.
+// points; it is written into the case header and replays exactly.  Choice points:
+//   depth-0 mode     lock acquisitions reached while holding no lock, and the gaps between calls;
+//   lock-aware mode  EVERY lock acquisition (also inside a critical section of another lock; a
+//                    goroutine whose lock is taken is blocked, a state with nobody enabled is a
+//                    deadlock) and the gaps between calls (header token yield=locks).  Systematic
+//                    exploration is preemption-bounded: at most `bound` switches away from a
+//                    goroutine that could have continued; switches at a blocked acquisition, at
+//                    the end of a goroutine and between two calls are free.
 
 import (
 	"fmt"
 	"os"
+	"path/filepath"
+	"sort"
 	"strings"
 	"time"
 
+	"github.com/spf13/afero"
+	"github.com/spf13/afero/mem"
 	"github.com/spf13/afero/verifsched"
 )
 
 const c04HasSched = true
 
-func c04Sched(p *c04Prog, chooser func(en []int, label string) int) *c04Hist {
+// Readdir returns live FileInfos whose Name() locks the entry: rendered through them, a listing
+// would be read entry by entry at later instants (the documented live view, like Stat's
+// FileInfo).  In this binary the names and kinds of the returned entries are read without
+// locks right after Readdir returns — no goroutine switch lies in between — so the recorded
+// result is the listing of the instant of the listing section.
+func init() {
+	c04HandleHook = func(f afero.File, name string, a []string) (string, bool) {
+		if name != "HReaddir" {
+			return "", false
+		}
+		l, err := f.Readdir(atoi(a[0]))
+		parts := make([]string, len(l))
+		for i, fi := range l {
+			mfi, ok := fi.(*mem.FileInfo)
+			if !ok {
+				return "", false
+			}
+			full, dir := mem.VerifSchedRaw(mfi.FileData)
+			_, base := filepath.Split(full)
+			d := "f"
+			if dir {
+				d = "d"
+			}
+			parts[i] = hx([]byte(base)) + "|" + d
+		}
+		sort.Strings(parts)
+		return listRes("infos", strings.Join(parts, ","), len(l), err), true
+	}
+}
+
+// lockAware: every lock acquisition is a choice point; bound: preemptions offered (<0: no limit)
+type c04SchedOpt struct {
+	lockAware bool
+	bound     int
+}
+
+func (o c04SchedOpt) mode(base string) string {
+	if o.lockAware {
+		return "l" + base // ldfs, lrand
+	}
+	return base
+}
+
+func c04Sched(p *c04Prog, opt c04SchedOpt, chooser func(en []int, label string) int) *c04Hist {
+	verifsched.LockAware = opt.lockAware
+	verifsched.Bound = opt.bound
 	r, h := c04Prepare(p)
+	// MemMapFs creates its root inside a sync.Once on first use, taking the root's mutex (SetMode)
+	// while it holds the Once's own, uninstrumented mutex: a switch at that acquisition would let
+	// another goroutine block for real on the Once.  The first use happens here.
+	r.fs.Stat("/")
 	n := len(p.Threads)
 	body := func(g int) {
 		for i := range r.ops[g] {
@@ -35,6 +94,10 @@ func c04Sched(p *c04Prog, chooser func(en []int, label string) int) *c04Hist {
 	case <-fin:
 	case <-time.After(5 * time.Second):
 		h.Hung = true
+	}
+	h.LockAware = opt.lockAware
+	if !h.Hung {
+		h.Deadlock = verifsched.Deadlock
 	}
 	r.finish(h)
 	tr := make([]string, len(verifsched.Trace))
@@ -57,6 +120,10 @@ type c04Seen struct {
 }
 
 func (x *c04Seen) add(h *c04Hist) {
+	x.addMode(h, x.mode)
+}
+
+func (x *c04Seen) addMode(h *c04Hist, mode string) {
 	h.normalise()
 	x.s.total++
 	key := h.key()
@@ -64,7 +131,7 @@ func (x *c04Seen) add(h *c04Hist) {
 		e.count++
 		return
 	}
-	x.s.emit(fmt.Sprintf("%s.%d", x.idp, len(x.seen)), x.p, h, x.mode, 1)
+	x.s.emit(fmt.Sprintf("%s.%d", x.idp, len(x.seen)), x.p, h, mode, 1)
 	x.seen[key] = x.s.emitted[len(x.s.emitted)-1]
 	if h.Hung {
 		// the scheduler state is lost with a blocked goroutine: stop here, the parent reports it
@@ -74,9 +141,10 @@ func (x *c04Seen) add(h *c04Hist) {
 	}
 }
 
-// systematic enumeration: depth-first over the choice points, at most budget schedules
-func c04DFS(s *c04State, idp string, p *c04Prog, budget int) (int, bool) {
-	x := &c04Seen{s: s, idp: idp, p: p, mode: "dfs", seen: map[string]*c04Emitted{}}
+// systematic enumeration: depth-first over the choice points, at most budget schedules (in
+// lock-aware mode: over the choices the preemption bound leaves)
+func c04DFS(s *c04State, idp string, p *c04Prog, budget int, opt c04SchedOpt) (int, bool) {
+	x := &c04Seen{s: s, idp: idp, p: p, mode: opt.mode("dfs"), seen: map[string]*c04Emitted{}}
 	var prefix []int
 	for n := 0; n < budget; n++ {
 		var taken, arity []int
@@ -92,7 +160,7 @@ func c04DFS(s *c04State, idp string, p *c04Prog, budget int) (int, bool) {
 			arity = append(arity, len(en))
 			return en[k]
 		}
-		x.add(c04Sched(p, chooser))
+		x.add(c04Sched(p, opt, chooser))
 		i := len(taken) - 1
 		for i >= 0 && taken[i]+1 >= arity[i] {
 			i--
@@ -110,7 +178,13 @@ func c04RandSched(s *c04State, idp string, p *c04Prog, samples int) {
 	for n := 0; n < samples; n++ {
 		last := -1
 		stick := s.c.Rng.Intn(4) // 0: uniform; otherwise prefer to keep the running goroutine
-		x.add(c04Sched(p, func(en []int, label string) int {
+		// every other sample in lock-aware mode (no preemption bound: random walk); there are
+		// several times more choice points there, so the running goroutine is kept more often
+		opt := c04SchedOpt{lockAware: n%2 == 1, bound: -1}
+		if opt.lockAware {
+			stick = []int{0, 1, 3, 7, 15}[s.c.Rng.Intn(5)]
+		}
+		x.addMode(c04Sched(p, opt, func(en []int, label string) int {
 			if stick > 0 && last >= 0 && s.c.Rng.Intn(stick+1) > 0 {
 				for _, g := range en {
 					if g == last {
@@ -120,7 +194,7 @@ func c04RandSched(s *c04State, idp string, p *c04Prog, samples int) {
 			}
 			last = Pick(s.c.Rng, en)
 			return last
-		}))
+		}), opt.mode("rand"))
 	}
 }
 
@@ -153,7 +227,7 @@ func c04SchedPhase(s *c04State) {
 				}
 			}
 			pos := 0
-			h := c04Sched(p, func(en []int, label string) int {
+			h := c04Sched(p, c04SchedOpt{lockAware: p.LockAware, bound: -1}, func(en []int, label string) int {
 				g := en[0]
 				if pos < len(want) {
 					for _, e := range en {
@@ -174,33 +248,97 @@ func c04SchedPhase(s *c04State) {
 	if c.Tier == "thorough" {
 		nsmall, budget, nbig, samples = 500, 3000, 400, 300
 	}
-	// the fixed window configurations: every schedule, in both tiers
-	wex := 0
+	// the fixed window configurations, in both tiers: every schedule of the depth-0 mode, and
+	// every schedule of the lock-aware mode with at most laBound preemptions (laBudget
+	// schedules per program at most; the evidence says which programs were exhausted)
+	laBound, laBudget, laSmallBound := 2, 6000, 1
+	if c.Tier == "thorough" {
+		laBound, laBudget, laSmallBound = 3, 200000, 2
+	}
+	if v := os.Getenv("C04_LA_BOUND"); v != "" {
+		laBound = atoi(v)
+	}
+	if v := os.Getenv("C04_LA_BUDGET"); v != "" {
+		laBudget = atoi(v)
+	}
+	wex, lex := 0, 0
 	wprogs := c04WindowProgs()
+	var perProg []string
+	t0 := time.Now()
 	for wi, p := range wprogs {
-		n, ex := c04DFS(s, fmt.Sprintf("w%d", wi), p, 4000)
+		n, ex := c04DFS(s, fmt.Sprintf("w%d", wi), p, 4000, c04SchedOpt{})
 		c.Add("sched.window.schedules", n)
 		if ex {
 			wex++
 		}
 	}
+	c.Extra["window_depth0_s"] = fmt.Sprintf("%.1f", time.Since(t0).Seconds())
+	t0 = time.Now()
+	lprogs := append(append([]*c04Prog{}, wprogs...), c04LockWindowProgs()...)
+	for wi, p := range lprogs {
+		n, ex := c04DFS(s, fmt.Sprintf("L%d", wi), p, laBudget, c04SchedOpt{lockAware: true, bound: laBound})
+		c.Add("sched.lockaware.window.schedules", n)
+		c.Add("sched.lockaware."+p.Focus+".schedules", n)
+		st := "exhausted"
+		if ex {
+			lex++
+		} else {
+			st = "budget-reached"
+		}
+		perProg = append(perProg, fmt.Sprintf("L%d %s [%s] schedules=%d %s", wi, p.Focus, c04ProgSummary(p), n, st))
+	}
+	c.Extra["window_lockaware_s"] = fmt.Sprintf("%.1f", time.Since(t0).Seconds())
+	c.Extra["window_lockaware_bound"] = fmt.Sprintf("at most %d preemptions per schedule, at most %d schedules per program", laBound, laBudget)
+	c.Extra["window_lockaware_programs"] = perProg
 	c.Add("sched.window.programs", len(wprogs))
 	c.Add("sched.window.programs-exhausted", wex)
-	exhausted := 0
+	c.Add("sched.lockaware.window.programs", len(lprogs))
+	c.Add("sched.lockaware.window.programs-exhausted-under-bound", lex)
+	exhausted, lsmall := 0, 0
 	for pi := 0; pi < nsmall; pi++ {
 		p := c04ExpandStats(c04Small(c04GenProgRaw(c.Rng, pi), 2+pi%2, 1+(pi/2)%2))
-		n, ex := c04DFS(s, fmt.Sprintf("d%d", pi), p, budget)
+		n, ex := c04DFS(s, fmt.Sprintf("d%d", pi), p, budget, c04SchedOpt{})
 		c.Add("sched.dfs.schedules", n)
 		if ex {
 			exhausted++
 		}
+		// the same generated program in lock-aware mode, with a smaller preemption bound
+		n, ex = c04DFS(s, fmt.Sprintf("D%d", pi), p, budget, c04SchedOpt{lockAware: true, bound: laSmallBound})
+		c.Add("sched.lockaware.dfs.schedules", n)
+		if ex {
+			lsmall++
+		}
 	}
 	c.Add("sched.dfs.programs", nsmall)
 	c.Add("sched.dfs.programs-exhausted", exhausted)
+	c.Add("sched.lockaware.dfs.programs", nsmall)
+	c.Add("sched.lockaware.dfs.programs-exhausted-under-bound", lsmall)
+	c.Extra["dfs_lockaware_bound"] = fmt.Sprintf("generated small programs: at most %d preemptions per schedule, at most %d schedules per program", laSmallBound, budget)
 	for pi := 0; pi < nbig; pi++ {
 		p := c04GenProg(c.Rng, pi)
 		c04RandSched(s, fmt.Sprintf("q%d", pi), p, samples)
 		c.Add("sched.rand.schedules", samples)
 	}
 	c.Add("sched.rand.programs", nbig)
+}
+
+// "Rename,Rename || HReaddirnames": the op names of every goroutine
+func c04ProgSummary(p *c04Prog) string {
+	var gs []string
+	for _, th := range p.Threads {
+		var ns []string
+		for _, it := range th {
+			f := strings.Fields(it)
+			if c04InfoOps[f[2]] {
+				continue
+			}
+			n := f[2]
+			if n == "OpenFile" {
+				n += "(" + f[4] + ")"
+			}
+			ns = append(ns, n)
+		}
+		gs = append(gs, strings.Join(ns, ","))
+	}
+	return strings.Join(gs, " || ")
 }
